@@ -192,6 +192,14 @@ def run(facts, tr, rep):
                     v = peel(tr.expand(tr.operand(ch, sd.args[1], sd.loc)))
                     sent_val = any(derives(tr, v, await_node(ch, a), variants=("Ready",)) for a in inner_aw)
                 ok_body = len(ics) == 1 and len(inner_aw) == 1 and sent_val
+                if ok_body:
+                    # the detached task runs the wrapped call unconditionally (not "only if somebody still listens")
+                    from ..pair import in_observability_macro
+                    conds = [e for e in dominating_edges(tr, ch, ics[0].bb) if e["kind"] == "bool" and not in_observability_macro(cg.term(e["bb"]))]
+                    rep.ob("C06.NO-CANCEL", skey(b, "spawn#%d|unconditional" % n), not conds, ics[0].where(),
+                           "the background task makes the wrapped call unconditionally" if not conds else
+                           "the background task makes the wrapped call only under a condition (%s): when it does not hold the inner call is "
+                           "never run, although cancel_running_future(false) promises it runs to completion" % show(conds[0]["node"])[:60])
         rep.ob("C06.NO-CANCEL", skey(b, "spawn#%d|task" % n), ok_body, c.where(),
                "the spawned task makes the wrapped call, awaits it to completion and reports its result through the oneshot channel" if ok_body else
                "the spawned task does not make-and-await the wrapped call and report its result")
